@@ -13,6 +13,19 @@ REPO = os.environ.get('ONSAGER_REPO', '/repo')
 PKG = 'onsager'
 
 
+NORMALIZE = os.environ.get('SA_RAW') != '1'
+_NORM_CACHE = {}
+
+
+def _normalized(src, raw):
+    import hashlib
+    from .engines import norm
+    key = hashlib.sha1(src.encode('utf-8', 'replace')).hexdigest()
+    if key not in _NORM_CACHE:
+        _NORM_CACHE[key] = norm.normalize_module(raw)
+    return norm.clone(_NORM_CACHE[key])
+
+
 class AnalysisError(Exception):
     """The analysis itself cannot be carried out (anchor vanished, floor not met...)."""
 
@@ -111,9 +124,13 @@ class Module:
         self.relpath = relpath
         self.src = src
         try:
-            self.tree = attach_parents(ast.parse(src, filename=path))
+            raw = ast.parse(src, filename=path)
         except SyntaxError as e:
             raise AnalysisError('cannot parse %s: %s' % (relpath, e))
+        # every rule reads the behaviour-preserving normal form (sa/engines/norm.py); the tree as written stays
+        # available as ``raw_tree`` for the few rules about text (format strings, docstrings, resources)
+        self.raw_tree = attach_parents(raw)
+        self.tree = attach_parents(_normalized(src, raw)) if NORMALIZE else self.raw_tree
         self.classes = {}
         self.functions = {}  # qualname -> FunctionDef ('f', 'C.m', 'C.m.inner')
         self.imports = {}  # local alias -> dotted target ('np' -> 'numpy', 'pinv' -> 'scipy.linalg.pinv')
